@@ -154,8 +154,15 @@ def run(sim):
     if faults:
         errs = {"open": sim.draw_perm(OPEN_ERRNOS)[:3], "rename": sim.draw_perm(RENAME_ERRNOS)[:2], "write": [sim.draw_choice(WRITE_ERRNOS, "write_errno")]}
     write_pick = sim.draw_int(0, 11, "write_fault_pick") if faults else 0
+    # short-write family: one kernel write of the operation accepts only part of its buffer WITHOUT failing (disk or quota filling up in the
+    # middle of the buffer, RLIMIT_FSIZE); the write that follows fails with the run's errno, or succeeds (space was freed)
+    shorts = None
+    if sim.draw_bool(0.3, "short_writes"):
+        shorts = {"then": sim.draw_choice([errno.ENOSPC, errno.EFBIG, errno.EDQUOT, errno.EIO], "short_then_errno"),
+                  "write_pick": sim.draw_int(0, 11, "short_write_pick"), "len_pick": sim.draw_int(0, 2, "short_len_pick")}
     sim.config = {"variant": variant, "style": style, "tag": tag, "kind": kind, "exists": exists, "old_len": None if old is None else len(old), "new_len": len(new), "bufsize": bufsize,
-                  "name_class": name_class, "name_slack": name_slack, "name_len": name_len, "errno_faults": None if errs is None else {c: [errno.errorcode[e] for e in errs[c]] for c in sorted(errs)}}
+                  "name_class": name_class, "name_slack": name_slack, "name_len": name_len, "errno_faults": None if errs is None else {c: [errno.errorcode[e] for e in errs[c]] for c in sorted(errs)},
+                  "short_writes": None if shorts is None else dict(shorts, then=errno.errorcode[shorts["then"]])}
     _ctr[0] = 0
     F = simfs.FS(sim, bufsize=bufsize)
     saved_rb = filepath.randomBytes
@@ -166,15 +173,15 @@ def run(sim):
         if name_class == "near-limit":
             name_len = name_max - name_slack
         sim.event("case", variant, style or "-", tag or "-", kind, "old", "-" if old is None else len(old), "new", len(new), "buf", bufsize,
-                  "name", name_class, "-" if name_len is None else name_max - name_len, "faults", int(faults))
+                  "name", name_class, "-" if name_len is None else name_max - name_len, "faults", int(faults), "shorts", int(shorts is not None))
         with simfs.Installed(F, bindings):
-            _enumerate(sim, F, variant, style, tag, kind, old, new, name_class, name_len, errs, write_pick)
+            _enumerate(sim, F, variant, style, tag, kind, old, new, name_class, name_len, errs, write_pick, shorts)
     finally:
         filepath.randomBytes = saved_rb
         F.destroy()
 
 
-def _enumerate(sim, F, variant, style, tag, kind, old, new, name_class, name_len, errs, write_pick):
+def _enumerate(sim, F, variant, style, tag, kind, old, new, name_class, name_len, errs, write_pick, shorts=None):
     is_sob = variant.startswith("sob")
     d = os.path.join(F.root, "d")
     side = os.path.join(F.root, "o")       # a second directory: the other name of a hard-linked target / the file behind a symlinked one
@@ -411,8 +418,66 @@ def _enumerate(sim, F, variant, style, tag, kind, old, new, name_class, name_len
                         after_crash("%s@%s-after-failed-%s" % (label, op2, op),
                                     "%s, then crash at point %d/%d (%s %s, torn=%s)" % (what, n, len(fplan), op2, rel2, torn))
                         sim.step(100000)
+    # short writes: one drawn kernel write (of at least 2 bytes) accepts only 1 / half / all but one of its bytes, the first and the last one
+    # one of these lengths (drawn), and return that count without raising; the kernel write that follows (a buffered file issues it for the rest, a raw one leaves it to its
+    # caller) succeeds, or fails with the run's errno.  Nothing has "failed" at the moment of the short write, so the verdicts are the same
+    # as for an errno fault: returned normally -> the new content, complete; raised -> old or new.
+    short_points = 0
+    if shorts:
+        writes = [p for p in plan if p[1] == "write" and p[3] >= 2]
+        chosen = set()
+        drawn = None
+        if writes:
+            drawn = writes[shorts["write_pick"] % len(writes)][0]
+            chosen.update([writes[0][0], writes[-1][0], drawn])
+        for (k, op, rel, size) in plan:
+            if k not in chosen:
+                continue
+            lens = sorted(set([1, size // 2, size - 1]) & set(range(1, size)))
+            deep = lens[shorts["len_pick"] % len(lens)]
+            for slen in (lens if k == drawn else [deep]):
+                for then in (None, shorts["then"]):
+                    reset()
+                    arm = dict(short_at=k, short_len=slen, short_then=then)
+                    outcome, exc = attempt(new, **arm)
+                    sim.check("fault-fired", outcome != "crashed" and F.short_fired, label, "short write at call %d (%s) did not fire identically" % (k, op))
+                    sim.fault("short_write")
+                    if F.short_then_fired:
+                        sim.fault("short_write-then-errno")
+                    fplan = list(F.log)
+                    wit = "%s@short-write" % label
+                    what = "short write at call %d (%d of %d bytes accepted, next write %s)" % (k, slen, size, "succeeds" if then is None else errno.errorcode[then])
+                    if outcome == "ok":
+                        sim.probe("short-write-absorbed")
+                        sim.check("error-then-success-new-content", holds(new), wit,
+                                  lambda: "operation returned normally after %s, target holds %s; old=%s new=%s" % (what, _d(read_raw()), _d(encode(old)), _d(encode(new))))
+                    else:
+                        sim.probe("short-write-reported:" + type(exc).__name__)
+                        sim.check("error-old-or-new", read_raw() in (encode(new), encode(old)), wit,
+                                  lambda: "operation failed (%s) after %s: target holds %s; old=%s new=%s" % (type(exc).__name__, what, _d(read_raw()), _d(encode(old)), _d(encode(new))))
+                    left = strays()
+                    sim.check("only-temporaries-left", not left, wit, lambda: "stray files after %s: %r" % (what, left))
+                    resave(wit, what)
+                    sim.event("short", k, slen, "-" if then is None else errno.errorcode[then], outcome, " ".join(p[1] for p in fplan[k:]))
+                    # ... and, for one drawn accepted length, a crash at every call made after the short write (the writes of the rest, the flush
+                    # on close, the rename, clean-up): at each chosen write when the next write fails (the operation gives up: few calls), at the
+                    # drawn write when it succeeds
+                    if slen != deep or (then is None and k != drawn):
+                        continue
+                    for (n, op2, rel2, size2) in fplan[k:]:
+                        for torn in torn_lengths(op2, size2)[:3:2]:        # (torn lengths 0 and len/2 here)
+                            reset()
+                            crashed, _ = attempt(new, crash_at=n, torn=torn, **arm)
+                            sim.check("crash-fired", crashed == "crashed" and F.crashed_op == op2, label,
+                                      "crash point %d (%s) after %s did not fire identically" % (n, op2, what))
+                            sim.fault("short-write-then-crash@" + op2)
+                            short_points += 1
+                            after_crash("%s@%s-after-short-write" % (label, op2),
+                                        "%s, then crash at point %d/%d (%s %s, torn=%s)" % (what, n, len(fplan), op2, rel2, torn))
+                            sim.step(100000)
     sim.nontrivial = npoints >= 3 and torn_seen > 0
-    sim.state((variant, style, bool(tag), kind, npoints, old is None, name_class, base_outcome, errs is not None, min(post_points, 3)))
+    sim.state((variant, style, bool(tag), kind, npoints, old is None, name_class, base_outcome, errs is not None, min(post_points, 3),
+               shorts is not None, min(short_points, 3)))
 
 
 def _d(x):
